@@ -357,6 +357,26 @@ class AlgDomain:
         if s is None:
             s = find_sym(list(kwargs.values()))
         dt = s._dt
+        # pure index bookkeeping (ravel_multi_index, argsort of an index table, ...): every array involved is an integer / boolean array without symbols (it only became
+        # a proxy array because it was built while `np` is the shim, e.g. inside an lru_cache'd table builder): evaluate it natively and wrap the result
+        allsyms = [x for x in list(_arrays_in(args)) + list(_arrays_in(list(kwargs.values()))) if isinstance(x, SymArray)]
+        if allsyms and all(np.dtype(x._dt).kind in 'iub' and x.is_concrete() for x in allsyms):
+            def nat(x):
+                if isinstance(x, SymArray):
+                    return self.native(x)
+                if isinstance(x, (list, tuple)):
+                    return type(x)(nat(y) for y in x)
+                return x
+
+            def wrapn(r):
+                if isinstance(r, np.ndarray) and r.dtype != object and r.dtype.kind in 'iubfc':
+                    return SymArray(self.normalize(r.astype(object), r.dtype.type), r.dtype.type, self)
+                if isinstance(r, tuple):
+                    return tuple(wrapn(y) for y in r)
+                if isinstance(r, list):
+                    return [wrapn(y) for y in r]
+                return r
+            return wrapn(func(*nat(args), **{k: nat(v) for k, v in kwargs.items()}))
         ds = [np.dtype(x._dt) if isinstance(x, SymArray) else x.dtype for x in _arrays_in(args)]
         if ds:
             try:
